@@ -29,6 +29,30 @@ static PyObject *BufferType;
         return NULL; \
     }
 
+/*
+ * Parse a single unsigned integer argument which must not exceed `max`.
+ *
+ * The "B", "H", "I" and "K" formats of PyArg_ParseTuple do not check for
+ * overflow, so out-of-range integers would be silently truncated.
+ */
+static int
+parse_uint(PyObject *args, uint64_t max, uint64_t *value)
+{
+    PyObject *obj;
+    if (!PyArg_ParseTuple(args, "O", &obj))
+        return 0;
+
+    *value = PyLong_AsUnsignedLongLong(obj);
+    if (*value == (uint64_t)-1 && PyErr_Occurred())
+        return 0;
+
+    if (*value > max) {
+        PyErr_SetString(PyExc_ValueError, "Integer is too big");
+        return 0;
+    }
+    return 1;
+}
+
 static int
 Buffer_init(BufferObject *self, PyObject *args, PyObject *kwargs)
 {
@@ -209,8 +233,8 @@ Buffer_push_bytes(BufferObject *self, PyObject *args)
 static PyObject *
 Buffer_push_uint8(BufferObject *self, PyObject *args)
 {
-    uint8_t value;
-    if (!PyArg_ParseTuple(args, "B", &value))
+    uint64_t value;
+    if (!parse_uint(args, UINT8_MAX, &value))
         return NULL;
 
     CHECK_WRITE_BOUNDS(self, 1)
@@ -222,8 +246,8 @@ Buffer_push_uint8(BufferObject *self, PyObject *args)
 static PyObject *
 Buffer_push_uint16(BufferObject *self, PyObject *args)
 {
-    uint16_t value;
-    if (!PyArg_ParseTuple(args, "H", &value))
+    uint64_t value;
+    if (!parse_uint(args, UINT16_MAX, &value))
         return NULL;
 
     CHECK_WRITE_BOUNDS(self, 2)
@@ -236,8 +260,8 @@ Buffer_push_uint16(BufferObject *self, PyObject *args)
 static PyObject *
 Buffer_push_uint32(BufferObject *self, PyObject *args)
 {
-    uint32_t value;
-    if (!PyArg_ParseTuple(args, "I", &value))
+    uint64_t value;
+    if (!parse_uint(args, UINT32_MAX, &value))
         return NULL;
 
     CHECK_WRITE_BOUNDS(self, 4)
@@ -252,7 +276,7 @@ static PyObject *
 Buffer_push_uint64(BufferObject *self, PyObject *args)
 {
     uint64_t value;
-    if (!PyArg_ParseTuple(args, "K", &value))
+    if (!parse_uint(args, UINT64_MAX, &value))
         return NULL;
 
     CHECK_WRITE_BOUNDS(self, 8)
@@ -271,7 +295,7 @@ static PyObject *
 Buffer_push_uint_var(BufferObject *self, PyObject *args)
 {
     uint64_t value;
-    if (!PyArg_ParseTuple(args, "K", &value))
+    if (!parse_uint(args, UINT64_MAX, &value))
         return NULL;
 
     if (value <= 0x3F) {
